@@ -132,6 +132,33 @@ CLAIMED = {
         "Trusted: Lean kernel + standard axioms; float arithmetic of the engines (bit patterns compared with tolerance documented in evidence); the SQL text of the level predicates is C16/C06's subject.",
         "DESIGN.md §6 C10",
     ),
+    "C12": (
+        "Lean 4 theorems about a model of one_to_one_clustering.py (the iterative mutual-best-link loop with both row_number() windows as oracle parameters): the result is a partition of the records, "
+        "a duplicate-free dataset contributes at most one record to any cluster after EVERY iteration for EVERY tie-break, the loop terminates, and with pairwise distinct probabilities the result is "
+        "maximal (no remaining mutually-best candidate); connectivity through kept edges is proved from the parent-forest invariant (`connected_partial`) and DISPROVED for tied probabilities "
+        "(`connected_counter_ties` = known finding K4). Tie: cluster_using_single_best_links on DuckDB (1/4/16 threads) and SQLite vs the compiled model on every labelled 4-record graph sample, random tie-free "
+        "and tie-heavy inputs; tied inputs are checked for membership in the set of model outputs over all tie-breaks; independent oracle recomputes the four clauses naively.",
+        "Trusted: Lean kernel + standard axioms; engine semantics of joins/min/row_number; which tie-break an engine realises is a parameter. connected_tie_free is stated as open (conjecture, not claimed as theorem).",
+        "DESIGN.md §6 C12",
+    ),
+    "C16": (
+        "A translator (tlevels: instantiates every comparison-level and comparison creator of the library and parses the SQL it emits into a predicate tree) regenerates Generated/Levels.lean on every run; "
+        "Lean 4 proves over a three-valued (Kleene) evaluation model: the NULL level and every is_null_level-flagged level are two-valued, And/Or/Not compose as Kleene connectives, every record pair "
+        "satisfies exactly one level of a well-formed comparison (first-true + ELSE), threshold families are nested, haversine argument is clipped, and - by `decide` over the regenerated table - every "
+        "library comparison is well formed (`library_exactly_one_level`, `comparison_well_formed_generated`). Tie: the real SQL of every level run on DuckDB and SQLite over value grids (NULL, empty, unicode, "
+        "boundary thresholds) vs the model; metric implementations vs an independent oracle.",
+        "Trusted: Lean kernel + standard axioms; the tlevels translator and sqlglot parse; string metrics, regex, date parsing and trigonometric functions are inputs of the model checked differentially.",
+        "DESIGN.md §6 C16",
+    ),
+    "C18": (
+        "Lean 4 theorems about a table-ownership state machine layered on the C07 cache model (catalog, cache dict, owner tags): for EVERY history of requests, named stores, registrations, guarded drops, "
+        "delete_tables_created_by_splink_from_db and invalidate_cache respecting the explicit name-form hypothesis WF, user tables keep name and contents, registration under an existing name is refused without "
+        "overwrite, drops refuse foreign tables, cleanup removes exactly the Splink-derived tables, dropped means gone, and a table registered with overwrite over a cached name survives cleanup. Tie: event traces of "
+        "the real DatabaseAPI on persistent DuckDB/SQLite files pre-populated with user tables and views (names like Splink's), replayed through the compiled model and compared catalog-by-catalog after every "
+        "step; independent oracle compares schema+contents snapshots of user objects.",
+        "Trusted: Lean kernel + standard axioms; SQL DROP/CREATE semantics; which events an operation issues is observed, not modelled; debug_mode outside the model (K3 known finding, thorough tier).",
+        "DESIGN.md §6 C18",
+    ),
     "C17": (
         "A translator (T-writes, Python ast pass over the creator classes incl. inheritance, aliases, setters and dialect hooks) regenerates on every run the table of attribute writes each "
         "creator performs while producing SQL, classified dialect-slot / config-constant / self-dependent; Lean 4 proves once and for all that a creator without self-dependent writes answers "
